@@ -126,3 +126,28 @@ Example C14_example :
   min_skipnan Z znan Z.leb [nank; nank]%Z [nank; nank]%Z = None.
 Proof. repeat split; vm_compute; reflexivity. Qed.
 Print Assumptions C14_example.
+
+(* quantile_axis_skipnan_mut on one lane: strip the missing values (C04), then the lane quantile
+   kernel on the returned prefix (C01) - the values are those of the sort-based specification on
+   the lane WITHOUT its missing values, for every pivot oracle *)
+From NS Require Import Base.Res Mem.RemoveNan Mem.RemoveNanProofs Num.F64 Quantile.Index Quantile.Interp
+  Quantile.Lane Quantile.Spec Quantile.LaneProofs Sort.Rank.
+From NS Require Props.C01.
+
+Theorem C14_quantile_skipnan_lane : forall A (C : carrier A) s (is_nan : A -> bool) lane i lane' srt qs ds,
+  remove_nan A is_nan lane = Ok (i, lane') ->
+  Permutation (filter (fun x => negb (is_nan x)) lane) srt ->
+  Props.C01.lane_ok C s (firstn i lane') srt qs ds ->
+  forall fuel pick c, length (firstn i lane') <= fuel ->
+  lane_vals (quantiles_lane C s fuel pick c qs ds (firstn i lane')) = qspecs C s srt qs /\
+  Forall (fun x => is_nan x = false) (firstn i lane') /\
+  Permutation (firstn i lane') (filter (fun x => negb (is_nan x)) lane).
+Proof.
+  intros A C s is_nan lane i lane' srt qs ds Hr Hp Hok fuel pick c Hf.
+  destruct (remove_nan_survivors A is_nan lane i lane' Hr) as [Hs _].
+  destruct (remove_nan_spec A is_nan lane) as (i0 & l0 & E & _ & _ & _ & Hnn & _).
+  rewrite Hr in E. injection E as <- <-.
+  split; [|split; assumption].
+  exact (Props.C01.C01_lane_values A C s (firstn i lane') srt qs ds Hok fuel pick c Hf).
+Qed.
+Print Assumptions C14_quantile_skipnan_lane.
